@@ -2380,7 +2380,13 @@ func ruleNumberExtractionTotal(c *Ctx, rule string) {
 				}
 				n++
 				recognised := ""
+				afterSetString := false
 				for _, g := range guardsOf(ret) {
+					if ex, ok := g.Cond.(*ssa.Extract); ok && !g.Pol && ex.Index == 1 {
+						if sc, ok := ex.Tuple.(*ssa.Call); ok && core.CalleeKey(&sc.Call) == "math/big.Rat.SetString" {
+							afterSetString = true
+						}
+					}
 					if ex, ok := g.Cond.(*ssa.Extract); ok && g.Pol && ex.Index == 1 {
 						if ta, ok := ex.Tuple.(*ssa.TypeAssert); ok && isNamed(ta.AssertedType, "encoding/json", "Number") {
 							recognised = "json.Number"
@@ -2397,7 +2403,13 @@ func ruleNumberExtractionTotal(c *Ctx, rule string) {
 					c.R.OK(rule, fmt.Sprintf("extractor:not-a-number#%d", n), c.pos(ret), "\"not a number\" is answered for a value not recognised as a number")
 					continue
 				}
-				c.R.Bad(rule, "extractor:gives-up-on:"+recognised, c.pos(ret), "the number extractor answers \"not a number\" for a value it has recognised as a "+recognised+" (the exact conversion failed): such a number is then compared by its other traits - a json.Number has kind string, so it equals the string with the same spelling, and `const`/`enum` accept it for that string")
+				// (the construct says why: the one exit the pinned tree has is the failure of the exact conversion; any
+				// other way of giving up on a recognised number is a different finding)
+				why := fmt.Sprintf(":other#%d", n)
+				if afterSetString {
+					why = ""
+				}
+				c.R.Bad(rule, "extractor:gives-up-on:"+recognised+why, c.pos(ret), "the number extractor answers \"not a number\" for a value it has recognised as a "+recognised+" (the exact conversion failed): such a number is then compared by its other traits - a json.Number has kind string, so it equals the string with the same spelling, and `const`/`enum` accept it for that string")
 				break
 			}
 		})
